@@ -116,8 +116,12 @@ class Runner14(c13.Runner):
         items = core.all_items(st.prf)
         visible = [it for it in items if gid.can_depend_on(it.id) and it.th is not None and it.rule != 'sorry']
         facts = []
+        quant = [it for it in visible if it.th.prop.is_forall() or it.th.prop.is_exists()]
         for i in range(min(op['nf'], len(visible))):
-            f = visible[-1 - ((op['f'] + i * 5) % min(len(visible), 4))]
+            if quant and (op['f'] + i) % 2 == 0:
+                f = quant[-1 - ((op['f'] // 2 + i) % min(len(quant), 3))]      # facts that exists_elim / forall_elim accept
+            else:
+                f = visible[-1 - ((op['f'] + i * 5) % min(len(visible), 4))]
             if str(f.id) not in facts:
                 facts.append(str(f.id))
         rec0 = self.next_step(s)
@@ -161,6 +165,9 @@ class Runner14(c13.Runner):
         if facts and len(gaps) >= 1 and op['g'] % 2 == 0:
             # a second search in the same process, other goal, no facts selected: nothing of the first may leak
             others = [it for it in gaps if str(it.id) != str(gid)] or gaps
+            earlier = [it for it in others if not all(it.id.can_depend_on(ItemID(f)) for f in facts)]
+            if earlier and op['g'] % 4 == 0:
+                others = earlier
             gid2 = others[(op['g'] // 2) % len(others)].id
             try:
                 with c13.op_alarm(90):
